@@ -1,8 +1,11 @@
 """C10 - every correction honours the copy / in-place / array / series contract.
 
 Oracles: before/after snapshots, a *second, identically constructed* correction object applied to
-the raw array (so caches cannot make the comparison circular), per-slice differential for series,
-neutral-element law, and the constructor chain ``Image(arr, transformations=[a, b]) == b(a(Image))``.
+the raw array (so caches cannot make the comparison circular), per-slice differential for series
+(a fresh correction object per slice), neutral-element law, the constructor chain
+``Image(arr, transformations=[a, b]) == b(a(Image))`` (members with ``active=False`` included) and
+history-freeness: a correction object that has already been applied to other data gives the same
+result as a fresh one.
 """
 import contextlib
 import copy
@@ -247,9 +250,36 @@ def gen(mode, kinds=None, classes=None):
     return lambda tier: strat()
 
 
+# corrections that fit / cache something at call time get more weight in the re-use law
+REUSE_KINDS = ["type", "rotation", "translation", "curvature", "curvature", "drift_off", "drift_on",
+               "drift_on", "transformation", "affine_fit", "gpersp", "illumination", "color", "color",
+               "color"]
+
+
+def gen_reuse(tier):
+    @st.composite
+    def strat(draw):
+        kind = draw(st.sampled_from(REUSE_KINDS))
+        spec = draw(_spec(kind, "any"))
+        cp = draw(_corr(kind, spec))
+        # the input the correction object is applied to *before* the one that is compared: same
+        # geometry, other data (other illumination of the colour checker, other drift)
+        warm = {"pseed": draw(st.integers(0, 2**16)),
+                "shift": [draw(st.integers(-5, 5)), draw(st.integers(-5, 5))],
+                "overwrite": draw(st.booleans())}
+        return {"inp": spec, "corr": cp, "overwrite": draw(st.booleans()), "warm": warm}
+
+    return strat()
+
+
 CHAIN_FIRST = ["type", "rotation", "translation", "curvature", "drift_off", "transformation",
                "illumination"]
 CHAIN_SECOND = CHAIN_FIRST + ["curvature", "transformation", "gpersp"]
+# corrections carrying an ``active`` flag that is switched off: the constructor has to treat them
+# like any other member (an inactive ColorCorrection still converts to float32 in [0, 1])
+CHAIN_FIRST = CHAIN_FIRST + ["color_off"]
+CHAIN_SECOND = CHAIN_SECOND + ["color_off", "translation_off"]
+_COLOR_DTYPES = REQ["color"]["dtypes"]
 
 
 def gen_chain(tier):
@@ -260,14 +290,23 @@ def gen_chain(tier):
         k1 = draw(st.sampled_from(CHAIN_FIRST))
         k2 = draw(st.sampled_from(CHAIN_SECOND))
         spec = draw(_spec("curvature", "image"))
-        if "illumination" in (k1, k2):
+        if "illumination" in (k1, k2) or "color_off" in (k1, k2):
             spec["payload"], spec["ncomp"] = "vector", 3
-            if spec["dtype"] not in REQ["illumination"]["dtypes"]:
-                spec["dtype"] = "float64"
+            ok = [d for d in _COLOR_DTYPES if "color_off" in (k1, k2)] or list(REQ["illumination"]["dtypes"])
+            if "illumination" in (k1, k2):
+                ok = [d for d in ok if d in REQ["illumination"]["dtypes"]]
+            if spec["dtype"] not in ok:
+                spec["dtype"] = draw(st.sampled_from(ok))
             if spec["cls"] == "ScalarImage":
                 spec["cls"] = "Image"
-        c1 = draw(_corr(k1, spec, keep_shape=True))
-        c2 = draw(_corr(k2, spec))
+
+        def member(k, **kw):
+            if k == "color_off":
+                return draw(_corr("color", spec, neutral=True))
+            return draw(_corr(k, spec, **kw))
+
+        c1 = member(k1, keep_shape=True)
+        c2 = member(k2)
         return {"inp": spec, "chain": [c1, c2], "with_none": draw(st.booleans())}
 
     return strat()
@@ -650,6 +689,11 @@ def _is_neutral(cp):
     return False
 
 
+def _inactive(cp):
+    """The correction object carries ``active == False``."""
+    return cp["kind"] in ("drift_off", "translation_off") or (cp["kind"] == "color" and not cp["active"])
+
+
 def _outcome(case, evals=1, neutral_ok=False):
     spec = case["inp"]
     rich = spec["series"] or spec["payload"] == "vector" or bool(case.get("overwrite"))
@@ -829,9 +873,11 @@ def check_series(case):
         raise Violation(f"series-axis:{cp['kind']}", f"result shape {r.img.shape}: time axis is not axis "
                         f"{r.space_dim} with {spec['nt']} slices", t)
     ref = _mk_input(spec, arr)
-    c2 = build_corr(cp, spec)
     for k in range(spec["nt"]):
-        want = _apply(c2, ref.time_slice(k), False)
+        # a *fresh* correction per slice: "each time slice separately" means that slice k must not
+        # depend on what the correction object has seen in slices 0..k-1 (fitted state kept on
+        # the object would otherwise be shared by both sides of the comparison)
+        want = _apply(build_corr(cp, spec), ref.time_slice(k), False)
         got = r.time_slice(k)
         d = _same_array(got.img, want.img)
         if d:
@@ -840,7 +886,9 @@ def check_series(case):
         d = _meta_diff(_norm_meta(got.metadata()), _norm_meta(want.metadata()))
         if d:
             raise Violation(f"series-slice-metadata:{cp['kind']}", f"slice {k}: {d}", t)
-    return _outcome(case, evals=spec["nt"])
+    out = _outcome(case, evals=spec["nt"])
+    out.labels = tuple(out.labels) + (f"nt-{spec['nt']}",)
+    return out
 
 
 # ---------------------------------------------------------------------------------------------
@@ -892,7 +940,7 @@ def check_chain(case):
     t = _tags(case)
     c1, c2 = case["chain"]
     pc = dict(c1)
-    if c1["kind"] in ("type", "illumination") or c2["kind"] in ("type", "illumination"):
+    if c1["kind"] in ("type", "illumination", "color") or c2["kind"] in ("type", "illumination", "color"):
         pc = {"kind": "chain"}  # floats in [0, 1]
     arr = _payload(spec, pc)
     a2, b2 = build_corr(c1, spec), build_corr(c2, spec)
@@ -913,7 +961,45 @@ def check_chain(case):
     d = _meta_diff(_norm_meta(got.metadata()), _norm_meta(want.metadata()))
     if d:
         raise Violation(f"chain-metadata:{t['corr']}", f"constructor chain vs b(a(image)): {d}", t)
-    return Outcome(True, None, _labels(case) + (f"first-{c1['kind']}", f"second-{c2['kind']}"))
+    lab = _labels(case) + (f"first-{c1['kind']}", f"second-{c2['kind']}")
+    if any(_inactive(c) for c in (c1, c2)):
+        lab += ("inactive-member",)
+        if any(c["kind"] == "color" for c in (c1, c2)) and spec["dtype"] != "float32":
+            lab += ("inactive-member-converts",)
+    return Outcome(True, None, lab)
+
+
+# ---------------------------------------------------------------------------------------------
+# 9. a correction object that has been used before gives the same result as a fresh one
+# ---------------------------------------------------------------------------------------------
+
+
+def check_reuse(case):
+    """"pixel data equals the correction applied to the raw array" holds for *every* application
+    of a correction object, not only for the first one: c(A); c(B) == fresh(B), data and metadata."""
+    spec, cp, arr = _setup(case)
+    t = _tags(case)
+    w = case["warm"]
+    spec0 = dict(spec, pseed=w["pseed"])
+    cp0 = dict(cp, shift=list(w["shift"])) if cp["kind"] == "drift_on" else cp
+    arr0 = _payload(spec0, cp0)
+    differs = arr0.shape == arr.shape and not np.array_equal(arr0, arr)
+    want = _apply(build_corr(cp, spec), _mk_input(spec, arr), case["overwrite"])
+    c = build_corr(cp, spec)
+    _apply(c, _mk_input(spec0, arr0), w["overwrite"])
+    r = _apply(c, _mk_input(spec, arr), case["overwrite"])
+    d = _same_array(_arr(r), _arr(want))
+    if d:
+        raise Violation(f"reuse-data:{cp['kind']}", "second application of a correction object vs a fresh, "
+                        f"identically built correction on the same input: {d}", t)
+    if not isinstance(r, np.ndarray):
+        d = _meta_diff(_norm_meta(r.metadata()), _norm_meta(want.metadata()))
+        if d:
+            raise Violation(f"reuse-metadata:{cp['kind']}", f"second application vs fresh correction: {d}", t)
+    out = _outcome(case, evals=2)
+    out.nontrivial = bool(differs)
+    out.labels = tuple(out.labels) + ("warm-differs" if differs else "warm-same",)
+    return out
 
 
 _RULE = ("Hypothesis draws a correction (type, rotation 2-D/3-D, translation, curvature with "
@@ -922,7 +1008,11 @@ _RULE = ("Hypothesis draws a correction (type, rotation 2-D/3-D, translation, cu
          "ColorCorrection on a synthetic colour checker) and an input the correction accepts "
          "(ndarray / Image / ScalarImage / OpticalImage, single or series, dtype, metadata); "
          "non-trivial = (series or vector payload or overwrite=True) and non-neutral parameters "
-         "(neutral sub-check: series or vector or overwrite); distinct = the whole case")
+         "(neutral sub-check: series or vector or overwrite; re-use sub-check: the correction object "
+         "has first been applied to other data of the same geometry); constructor chains also contain "
+         "members whose ``active`` flag is off (inactive ColorCorrection / Drift / Translation); the "
+         "per-slice reference of a series comes from a fresh correction object per slice; "
+         "distinct = the whole case")
 
 _SH = {"quick": 4, "thorough": 16}
 
@@ -955,5 +1045,6 @@ PROP = Prop(
         Sub("series_equals_per_slice", _wrap(check_series), gen=gen("series"), n=_n(1800, 45000), shards=_SH),
         Sub("neutral_is_identity", _wrap(check_neutral), gen=gen("neutral"), n=_n(2400, 60000), shards=_SH),
         Sub("constructor_chain", _wrap(check_chain), gen=gen_chain, n=_n(1800, 45000), shards=_SH),
+        Sub("reuse_is_history_free", _wrap(check_reuse), gen=gen_reuse, n=_n(400, 12000), shards=_SH),
     ],
 )
